@@ -5,6 +5,11 @@ import json, subprocess
 HOOK_COMMITS = ["e830588", "a6f2056", "d667224"]
 
 CHECKS = {
+ "C18": dict(
+  technique="runtime monitors: metamorphic check of the shard hash functions + offline history checker (exactly-once, no-processing-after-drop, counter conservation, affinity) over the hook event log under concurrent dispatchers",
+  text="Exploration: (a) 30k (quick) / 1M (thorough) seeded identities x 3 pools x 9 worker counts x 6 identity-preserving variants (payload, flags, seq/ack, window, TTL, ID, TOS, IP options incl. IHL<5, TCP options, total length, framing) plus garbage/truncated frames; (b) 1.6k (quick) / 40k (thorough) pool runs with 1..8 dispatcher threads, queue sizes 0..1024, 40..300 unique frames each, perturbation at hook points; the recorded history must show exactly-once processing of queued frames, none of dropped ones, one worker per identity, and statistics equal to the outcomes returned. Held = no history violated the rules (one listed known finding about the HTTP per-worker drop counter).",
+  note="Needs hook H2. Exactly-once is observed at the WorkerProcessed hook point; frames are identified by content hash and are unique by construction.",
+  design="6 C18"),
  "C10": dict(
   technique="runtime differential with event log: worker pools vs sequential analyzers on the same traces, logical drain detection through hook events, seeded schedule perturbation at hook points",
   text="Exploration: 400 (quick) / 6000 (thorough) seeded traces of 10..200 connections x the TCP, HTTP and TLS pools x 3..6 configurations (workers 1..16, batch 1/2/32, timeout 1/10 ms, perturbation rates) plus lock-step runs with a moving virtual clock and the parallel analyze_pcap entry; result multisets and per-connection/per-sender orders must equal the sequential run. Evidence counts the distinct result-arrival orders observed (schedule diversity). Held = no run differed; undrained or overflowing runs are inconclusive.",
